@@ -25,6 +25,7 @@ func runC06(c *Ctx, w *World, r *Report) {
 	r.Rule("R-VERSION", "Marshal uses DefaultVer unless the message is a VersionedMessage (then its GetVersion()); newHeader rejects versions longer than versionLen and copies the version into the Version field; GetVersion is verStr of the whole Version field; Unmarshal returns the header's GetVersion()")
 
 	pk := w.Pkg("pbcmpl")
+	reportAccept(w, r, "pbcmpl.Unmarshal")
 	// ---- R-LAYOUT
 	{
 		bad := ""
@@ -506,6 +507,104 @@ func runC06(c *Ctx, w *World, r *Report) {
 	ReportCount(w, r, "pbcmpl.Marshal", 0, isParamStream(fns["pbcmpl.Marshal"], 0))
 	ReportCount(w, r, "pbcmpl.Unmarshal", 0, isParamStream(fns["pbcmpl.Unmarshal"], 0))
 	ReportCount(w, r, "pbcmpl.ReadHeader", 0, isParamStream(fns["pbcmpl.ReadHeader"], 0))
+}
+
+// reportAccept (R-ACCEPT): every size Marshal can record is accepted by Unmarshal.
+func reportAccept(w *World, r *Report, fname string) {
+	r.Rule("R-ACCEPT", "Unmarshal rejects a body size on its own account (a return of a library error value on an edge decided by a comparison of the recorded body size with a constant) only for sizes no Marshal call can record: the rejected interval must not meet [0, 2^31-1] (protobuf bodies are < 2 GiB); a tighter cap refuses frames the library itself wrote")
+	fn := findFunc(w, fname)
+	if fn == nil {
+		r.Unknown("R-ACCEPT", fname, "-", "function missing")
+		return
+	}
+	fa := w.FA(fn)
+	const maxBody = int64(1)<<31 - 1
+	bad := ""
+	nrej := 0
+	errIdx := fn.Signature.Results().Len() - 1
+	for _, ret := range returnsOf(fn) {
+		if errIdx < 0 || errIdx >= len(ret.Results) {
+			continue
+		}
+		if _, ok := isGlobalErrVarLoad(unwrapErr(ret.Results[errIdx])); !ok {
+			continue // nil, or an error handed up from an I/O or decode call
+		}
+		for _, cs := range fa.CondsDNF(ret.Block(), 0) {
+			lo, hi, hasLo, hasHi, any := int64(0), int64(0), false, false, false
+			for _, cd := range cs {
+				bo, ok := cd.V.(*ssa.BinOp)
+				if !ok {
+					continue
+				}
+				op, ok := tokOp(bo.Op)
+				if !ok {
+					continue
+				}
+				x, y := stripConv(bo.X), stripConv(bo.Y)
+				var k int64
+				if src, isS := pbSizeSource(x); isS && (src == "GetBodySize" || src == "BodySize") {
+					kk, isK := constInt64(y)
+					if !isK {
+						continue
+					}
+					k = kk
+				} else if src, isS := pbSizeSource(y); isS && (src == "GetBodySize" || src == "BodySize") {
+					kk, isK := constInt64(x)
+					if !isK {
+						continue
+					}
+					k, op = kk, flipOp(op)
+				} else {
+					continue
+				}
+				if !cd.Pol {
+					op = negOp(op)
+				}
+				any = true
+				switch op { // size op k
+				case opLT:
+					if !hasHi || k-1 < hi {
+						hi, hasHi = k-1, true
+					}
+				case opLE:
+					if !hasHi || k < hi {
+						hi, hasHi = k, true
+					}
+				case opGT:
+					if !hasLo || k+1 > lo {
+						lo, hasLo = k+1, true
+					}
+				case opGE:
+					if !hasLo || k > lo {
+						lo, hasLo = k, true
+					}
+				case opEQ:
+					if !hasLo || k > lo {
+						lo, hasLo = k, true
+					}
+					if !hasHi || k < hi {
+						hi, hasHi = k, true
+					}
+				}
+			}
+			if !any {
+				continue
+			}
+			nrej++
+			// rejected interval [lo, hi] meets [0, maxBody]?
+			if (!hasLo || lo <= maxBody) && (!hasHi || hi >= 0) && !(hasLo && hasHi && lo > hi) {
+				l, h := "-inf", "+inf"
+				if hasLo {
+					l = fmt.Sprint(lo)
+				}
+				if hasHi {
+					h = fmt.Sprint(hi)
+				}
+				bad = fmt.Sprintf("the return at %s rejects every frame whose recorded body size is in [%s, %s]: Marshal writes such frames (any body up to 2^31-1 bytes), they no longer round-trip", w.InstrPos(ret), l, h)
+			}
+		}
+	}
+	r.Check(bad == "", "R-ACCEPT", fname, w.Pos(fn.Pos()), bad, fmt.Sprintf("%d size-decided rejection edge(s), none meets [0, 2^31-1]", nrej))
 }
 
 func init() {
